@@ -373,6 +373,7 @@ def c12(ctx, rep):
     # and a $9$-looking token the decoder neither refuses nor decodes takes the rest of the file with it
     checks_ip._gate_content(ctx, m, rep, "C12")
     checks_ip._stage_families(ctx, m, rep, "C12")
+    import_clauses(ctx, rep, "C12", "C19", c19, ("C19.list-options",))  # an empty or re-split list entry becomes a pattern that matches between all characters
     import_clauses(ctx, rep, "C12", "C05", checks_ip.c05, ("C05.preserved-list",))
     import_clauses(ctx, rep, "C12", "C18", _misc.c18, ("C18.valid-alphabet", "C18.valid-min-length", "C18.validated-before-tables", "C18.refusal"), with_k3=False)
 
@@ -467,9 +468,38 @@ def stream_open_rule(ctx, rep, cl):
                            "open(%s) uses %s; expected only a path and the mode %s (errors= hides undecodable input, newline= changes what a line is, buffering/opener are not reviewed)" % (show(a)[5:60], extra or "mode %r" % mode, "'r'/'w'"),
                            W(f, e.node), key="%s.stream-open-plain|%s:%s" % (cl, f.name, mode[:1]))
                     encs.append(show(kws["encoding"]) if "encoding" in kws else None)
+                    if "encoding" in kws:
+                        enc_t = kws["encoding"]
+                        enc_v = enc_t[1].lower().replace("_", "-") if enc_t[0] == "const" and isinstance(enc_t[1], str) else None
+                        rep.ob(cl + ".stream-encoding-utf8", "%s:%s" % (f.name, mode), enc_v in ("utf-8", "utf8"),
+                               "open(..., encoding=%s); a declared encoding other than UTF-8 re-reads configs byte-wise (latin-1 turns the bytes 0x85/0xA0 of multi-byte characters into separators that the line splitting collapses; -sig variants drop a leading BOM on one entry point only)" % show(enc_t),
+                               W(f, e.node), key="%s.stream-encoding-utf8|%s:%s" % (cl, f.name, mode[:1]))
                 rep.ob(cl + ".stream-encoding-symmetric", f.name, len(set(encs)) == 1, "input is decoded with %s and output encoded with %s; non-ASCII text outside the replaced items must come back as it went in" % (encs[0], encs[-1]), W(f, e.node),
                        key="%s.stream-encoding-symmetric|%s" % (cl, f.name))
     rep.ob(cl + ".stream-opens-found", "entry points", n >= 2, "anonymize_io call sites with two freshly opened streams: %d (anonymize_files, anonymize_file)" % n, "", nontrivial=False)
+
+
+LIST_OPTIONS = ("sensitive_words", "as_numbers", "reserved_words", "preserve_prefixes", "preserve_networks")
+
+
+def list_option_consumed_once(ctx, rep, cl):
+    """The file layer hands each list-valued option to its feature without looking into it itself: on every path of FileAnonymizer.__init__ and
+    anonymize_files the parameter is used at most once (handed on, or merged into the reserved set).  A second use — a warning that lists the
+    words, a cross-check against another feature's list — empties a one-shot iterable before the feature sees it, and makes one feature's
+    input depend on another feature being enabled."""
+    from .hazards import Hazards, _Walk
+    p = ctx.p
+    hz = Hazards(ctx, rep, cl, set())
+    for f in (p.find_function("FileAnonymizer.__init__"), p.find_function("anonymize_files")):
+        node = f.gen_orig or f.node
+        for name in LIST_OPTIONS:
+            if name not in f.params and name not in f.kwonly:
+                continue
+            w = _Walk(hz, f.module, f.cls.node if f.cls else None, {name: 0}, 3)  # depth 3: a package callee counts as one use (its own uses are its feature's business)
+            w.block(node.body)
+            n_ = w.peak.get(name, 0)
+            rep.ob(cl + ".list-option-consumed-once", "%s:%s" % (f.name, name), n_ <= 1, "%s uses its parameter %s %d times on some path; expected one use (handing it to the feature it belongs to)" % (f.qualname, name, n_), W(f),
+                   key="%s.list-option-consumed-once|%s:%s" % (cl, f.name, name))
 
 
 def independent_wiring(ctx, rep, cl, only=None):
@@ -555,6 +585,7 @@ def c15(ctx, rep):
     import_clauses(ctx, rep, "C15", "C11", _rx.c11, ("C11.wiring",))
     import_clauses(ctx, rep, "C15", "C10", _sec.c10, ("C10.wiring",))
     import_clauses(ctx, rep, "C15", "C19", c19, ("C19.binding", "C19.options-not-rewritten"))  # each feature's own options reach it whatever other features are on
+    list_option_consumed_once(ctx, rep, "C15")
     # a feature's treatment of its text is decided by its own object: nothing shared between objects (class-level or default-argument memo, module table)
     from .checks_misc import stage_state_rule
     stage_state_rule(ctx, rep, "C15", ["FileAnonymizer"])
@@ -1016,6 +1047,7 @@ def c19(ctx, rep):
     import_clauses(ctx, rep, "C19", "C16", c16, ("C16.mkdirs-guard",), required=False)
     from . import checks_ip as _ip
     import_clauses(ctx, rep, "C19", "C02", _ip.c02, ("C02.result-int", "C02.undo."))
+    _ip._salt_defaulting(ctx, rep, "C19")  # "undo without salt is rejected" means a given salt — the empty string too — is the salt used
     # "documented defaults apply": the default tables are what the source says for the whole life of the process (no constructor adds to them)
     from .checks_misc import argument_mutation_rule
     argument_mutation_rule(ctx, rep, "C19", [f for f in p.all_functions() if (f.cls is not None and f.name == "__init__") or (f.cls is None and f.name == "anonymize_files")])
